@@ -124,6 +124,9 @@ func (fip *FloatingIPPool) UnmarshalJSON(data []byte) error {
 	} else {
 		m := map[string]string{}
 		for i := range conf.NodeSubnets {
+			if conf.NodeSubnets[i] == nil {
+				return fmt.Errorf("node subnet %d is null", i)
+			}
 			ipNet := conf.NodeSubnets[i].ToIPNet()
 			ipNet.IP = ipNet.IP.Mask(ipNet.Mask)
 			if _, ok := m[ipNet.String()]; !ok {
